@@ -200,27 +200,30 @@ fn main() {
                 failures.push((i, "the default exports of the declaration file and of the JavaScript module differ".to_string(), input, format!("declaration file: {tdefault:?}, module: {jdefault:?}"), got));
                 continue;
             }
-            // the i-th constant of both files is the i-th definition
-            if tconsts.len() != defs.len() || jconsts.len() != defs.len() {
-                failures.push((i, "the number of declared constants differs from the number of definitions".to_string(), input, format!("{} definitions, {} constants declared, {} constants in the module", defs.len(), tconsts.len(), jconsts.len()), got));
+            // which definition a declared constant stands for: the declaration file lists its constants in the order of
+            // the definitions (if it does not, this reader cannot tell - undecided, not a failure); the module may list
+            // its constants in any order: the constant of the same NAME must carry that definition
+            if tconsts.len() != defs.len() {
+                failures.push((i, "harness: the declaration file does not declare one constant per definition".to_string(), input, format!("{} definitions, {} constants declared", defs.len(), tconsts.len()), got));
                 continue;
             }
             let mut bad = None;
             for k in 0..defs.len() {
-                if tconsts[k].0 != jconsts[k].0 {
-                    bad = Some(format!("constant {k}: declared as {}, defined as {}", tconsts[k].0, jconsts[k].0));
+                let name = &tconsts[k].0;
+                if !jconsts.iter().any(|(n, _)| n == name) {
+                    bad = Some(format!("constant {name} (definition {}) is declared but the module has no constant of that name", defs[k]));
                     break;
                 }
-                match js_first_definition(&js, &jconsts[k].0) {
+                match js_first_definition(&js, name) {
                     Some(n) if n == defs[k] => {}
                     other => {
-                        bad = Some(format!("constant {} should carry definition {} but its document starts with {other:?}", jconsts[k].0, defs[k]));
+                        bad = Some(format!("constant {name} should carry definition {} but its document starts with {other:?}", defs[k]));
                         break;
                     }
                 }
             }
             if let Some(b) = bad {
-                failures.push((i, "a declared constant and the module's constant of the same position differ in name or document".to_string(), input, b, got));
+                failures.push((i, "a declared constant is missing from the module or carries the document of another definition".to_string(), input, b, got));
                 continue;
             }
             *per_family.entry("agreed".into()).or_default() += 1;
